@@ -45,6 +45,22 @@ def add_canaries(unit):
                     fc.canary = True
                     n += 1
     unit.tail = (unit.tail or '') + '\nproof fn prelude_consistent__canary() ensures false {}\n'
+    # lemmas: a lemma whose hypotheses contradict each other proves anything.  For every tagged lemma with a `requires`
+    # a twin with the same parameters and hypotheses and `ensures false` is generated; each twin must FAIL.
+    if unit.lemmas:
+        names = set(l.name for l in unit.lemmas)
+        txt = ''
+        for f in unit.spec:
+            txt += open(os.path.join(VERIF, 'spec', f)).read() + '\n'
+        for f in unit.prelude:
+            txt += open(os.path.join(VERIF, 'prelude', f)).read() + '\n'
+        twins = []
+        for m in re.finditer(r'pub proof fn (\w+)(<[^>\n]*>)?\s*\((.*?)\)\s*\n\s*requires(.*?)\n\s*ensures', txt, re.S):
+            if m.group(1) in names and 'proof fn' not in m.group(3) and 'proof fn' not in m.group(4):
+                twins.append('proof fn %s__vacuity%s(%s)\n    requires%s\n    ensures false\n{}\n' % (
+                    m.group(1), m.group(2) or '', m.group(3), m.group(4)))
+        unit.tail += '\n'.join(twins)
+        unit.lemma_twins = [re.match(r'proof fn (\w+)', t).group(1) for t in twins]
     unit.name = unit.name + '_canary'
     return n
 
@@ -209,6 +225,15 @@ def run_unit(name, factory, canaries=True, rlimit=None):
                             rl_fns.add(fid_)
             failed_fns |= rl_fns
             expected = set(klines.values())
+            twin_names = list(getattr(cu, 'lemma_twins', []) or [])
+            twin_failed = set()
+            for d in rc['diagnostics']:
+                for tn in twin_names:
+                    if tn in (d.get('rendered') or ''):
+                        twin_failed.add(tn)
+            twin_missing = [tn for tn in twin_names if tn not in twin_failed]
+            out['lemma_vacuity_twins'] = len(twin_names)
+            out['lemma_vacuity_twins_failed_as_expected'] = len(twin_failed)
             out['canaries_expected'] = len(expected) + 1
             ok_global = any('prelude_consistent__canary' in (c.get('fn') or '') or
                             'prelude_consistent__canary' in c.get('rendered', '')
@@ -225,6 +250,8 @@ def run_unit(name, factory, canaries=True, rlimit=None):
                 out['infra'].append('canary run generated no canaries')
             elif missing:
                 out['infra'].append('VACUITY: `ensures false` verified for %s (contradictory precondition or axiom)' % missing)
+            elif twin_missing:
+                out['infra'].append('VACUITY: the hypotheses of lemma(s) %s are contradictory (their `ensures false` twin verified)' % twin_missing)
             elif not ok_global:
                 out['infra'].append('VACUITY: global canary `prelude_consistent` verified: the assumed contracts are inconsistent')
         except X.InfraError as e:
@@ -488,8 +515,8 @@ def write_evidence(prop, tier, seed, units, results, all_obs, infra, violations,
         res = ur.get('res') or {}
         smt_ms += res.get('smt_ms') or 0
         cmds.append(res.get('cmd', ''))
-        canaries += ur.get('canaries_expected', 0)
-        canaries_ok += ur.get('canaries_failed_as_expected', 0)
+        canaries += ur.get('canaries_expected', 0) + ur.get('lemma_vacuity_twins', 0)
+        canaries_ok += ur.get('canaries_failed_as_expected', 0) + ur.get('lemma_vacuity_twins_failed_as_expected', 0)
         for f in res.get('function_breakdown', []):
             fb.append({'unit': n, 'function': f['function'], 'ms': f['ms'], 'rlimit': f['rlimit'], 'success': f['success']})
     # an obligation that fails because of a committed known finding is not part of the proof-level claim: it is listed
